@@ -572,7 +572,7 @@ static spa * alloc_spa(int_t n, int id) {
   }
 
   if (!s || !s->val || !s->nz || !s->idx) {
-    free(s->val); free(s->nz); free(s->idx); free(s);
+    if (s) { free(s->val); free(s->nz); free(s->idx); free(s); }
     PyErr_NoMemory();
     return NULL;
   }
@@ -2579,7 +2579,7 @@ spmatrix * SpMatrix_NewFromSpMatrix(spmatrix *A, int id)
   spmatrix *ret = SpMatrix_New
       (SP_NROWS(A), SP_NCOLS(A), SP_NNZ(A), id);
 
-  if (!ret) NULL;
+  if (!ret) return NULL;
 
   convert_array(SP_VAL(ret), SP_VAL(A), id, SP_ID(A), SP_NNZ(A));
   memcpy(SP_COL(ret), SP_COL(A), (SP_NCOLS(A)+1)*sizeof(int_t));
